@@ -20,6 +20,9 @@ TOOL = os.path.join(VERIF, 'bin', 'spectra-facts')
 DRIVERS = os.path.join(VERIF, 'drivers')
 CONTROLS = os.path.join(VERIF, 'selftest', 'controls')
 CACHE = os.path.join(VERIF, '.cache')
+if REPO != '/repo':
+    # analysing a scratch copy (self-tests, seeded changes): keep its facts apart from the real tree's cache
+    CACHE = os.path.join(VERIF, '.cache', 'alt')
 FLAGS = ['-std=c++11', '-I' + INCLUDE, '-I' + DRIVERS, '-isystem', '/usr/include/eigen3',
          '-I/usr/lib/llvm-14/lib/clang/14.0.6/include', '-UNDEBUG', '-Wno-everything']
 
@@ -84,7 +87,7 @@ def build(tier='quick', verbose=True):
         if not os.path.exists(done):
             # drop stale caches of the same tier (disk is limited)
             for old in os.listdir(CACHE):
-                if old.startswith(tier + '-') and old != os.path.basename(d):
+                if old.startswith(tier + '-') and old != os.path.basename(d) and REPO == '/repo':
                     shutil.rmtree(os.path.join(CACHE, old), ignore_errors=True)
             os.makedirs(d, exist_ok=True)
             jobs = []
